@@ -159,6 +159,11 @@ type Pool struct {
 	Startup []Taint           `json:"startup"`
 	Limits  Limits            `json:"limits"`
 	Types   []string          `json:"types"`
+	// C19 / C13 extensions (weights.go): NotReady = the pool's Ready condition is False; Deleting = it carries a
+	// deletionTimestamp; HashAnn = a (possibly stale) karpenter.sh/nodepool-hash annotation stored on the pool ("" none).
+	NotReady bool   `json:"notReady"`
+	Deleting bool   `json:"deleting"`
+	HashAnn  string `json:"hashAnn"`
 }
 
 type CSILimit struct {
